@@ -381,7 +381,7 @@ def shrink(case):
     for i, l in enumerate(lines):
         if len(l) > 4 and not l.startswith(("#", " ", "\t")) and ":" in l:
             name, _, rest = l.partition(":")
-            short = name + ": v" + ("\n" if l.endswith("\n") else "")
+            short = name + ": v%d" % i + ("\n" if l.endswith("\n") else "")
             if short != l:
                 t = "".join(lines[:i] + [short] + lines[i + 1:])
                 if _fits(t, ops):
